@@ -826,6 +826,22 @@ class Harness:
                 break
         return cur
 
+    def key_for(self, cfg: dict[str, Any], small: list[Op], cat: str) -> str:
+        """Mechanism key of a minimal failing history.  When the history needs an async
+        load and its all-sync twin history shows no divergence at all, the mechanism is
+        in the async path: the key names the async step forms (whatever the symptom —
+        wrong error, leak, stale entry — and whatever the loader family)."""
+        if any(o.kind == "load" and o.mode for o in small):
+            sync = [o._replace(mode=0) if o.kind == "load" else o for o in small]
+            self.ctx.count("minimiser_runs")
+            if self.run_history(cfg, sync, record=False) is None:
+                forms = set()
+                for o in small:
+                    if o.kind == "load" and o.mode:
+                        forms.add("aload" + ("[ns]" if o.ns else "") + ("(g)" if o.g == 1 else ""))
+                return "async-path-only:" + "+".join(sorted(forms))
+        return f"{cat}:{ref.pattern(small, cat)}"
+
     def report(self, cfg: dict[str, Any], ops: list[Op], d: Divergence, origin: str) -> str:
         """Turn a divergence at the last executed step into a keyed violation."""
         ctx = self.ctx
@@ -879,7 +895,7 @@ class Harness:
             if self.min_budget > 0:
                 self.min_budget -= 1
                 small = self.minimise(cfg, hist, cat)
-                key = f"{cat}:{ref.pattern(small, cat)}"
+                key = self.key_for(cfg, small, cat)
                 if not any(k == key for _, k in known):
                     known.append((small, key))
                     known.sort(key=lambda pk: len(pk[0]))
@@ -902,7 +918,8 @@ class Harness:
             wit["symptom"] = symptom[2:]
             wit["symptom_ops"] = [o.j() for o in full]
             wit["symptom_readable"] = [ref.show_op(o) for o in full]
-        ctx.violation(key, f"[{cfg_id(cfg)}] {d2.what}{symptom}", wit)
+        wit["category"] = cat
+        ctx.violation(key, f"[{cfg_id(cfg)}] {cat}: {d2.what}{symptom}", wit)
         return key
 
 
@@ -989,24 +1006,46 @@ def shards(tier: str, seed: int) -> list[dict[str, Any]]:  # noqa: ARG001
 
 
 def floors(tier: str) -> dict[str, int]:
-    k = 1 if tier == "quick" else 8
+    if tier == "quick":
+        return {
+            "evaluations": 1_500_000,
+            "loads_compared": 1_500_000,
+            "distinct_nontrivial": 100_000,
+            "set:configs": 30,
+            "exh_histories_done": 900_000,
+            "lrudeep_histories_done": 40_000,
+            "ev:hit": 150_000,
+            "ev:miss": 1_000_000,
+            "ev:reload": 1_000,
+            "ev:hit-verified": 20_000,
+            "ev:miss-failed": 40_000,
+            "model_evictions": 400_000,
+            "random_histories": 4_000,
+            "twin_full_renders": 30_000,
+            "schedules_explored": 5_000,
+            "sched_scenarios_exhaustive": 200,
+            "lrucache_sequences": 250_000,
+            "thread_quiescent_checks": 60,
+        }
     return {
-        "evaluations": 2_000_000 * k,
-        "loads_compared": 1_500_000 * k,
-        "distinct_nontrivial": 100_000 * k,
+        "evaluations": 30_000_000,
+        "loads_compared": 30_000_000,
+        "distinct_nontrivial": 2_000_000,
         "set:configs": 30,
-        "ev:hit": 200_000 * k,
-        "ev:miss": 500_000 * k,
-        "ev:reload": 5_000 * k,
-        "ev:hit-verified": 20_000 * k,
-        "model_evictions": 50_000 * k,
-        "ev:miss-failed": 20_000 * k,
-        "random_histories": 1_500 * k,
-        "twin_full_renders": 10_000 * k,
-        "schedules_explored": 2_000 * k,
-        "sched_scenarios_exhaustive": 100 * k,
-        "lrucache_sequences": 50_000,
-        "thread_quiescent_checks": 40 * k,
+        "exh_histories_done": 15_000_000,
+        "lrudeep_histories_done": 200_000,
+        "ev:hit": 3_000_000,
+        "ev:miss": 20_000_000,
+        "ev:reload": 50_000,
+        "ev:hit-verified": 500_000,
+        "ev:miss-failed": 1_000_000,
+        "model_evictions": 8_000_000,
+        "random_histories": 60_000,
+        "twin_full_renders": 500_000,
+        "schedules_explored": 100_000,
+        "sched_scenarios_exhaustive": 500,
+        "lrucache_sequences": 3_000_000,
+        "thread_quiescent_checks": 800,
     }
 
 
